@@ -203,10 +203,64 @@ func (d *c37Store) setPad(random bool) (uint64, error) {
 	return i, nil
 }
 
-func (d *c37Store) write(int) (uint64, error) {
+// write commits one change (one new row of t) and returns its raft index.  How it is written
+// depends on the gap value of the history (gap % 6), so that a history replays the same way:
+//   0,1 a plain Execute
+//   2   a unified Request, not a transaction: the INSERT, then a statement that fails (UNIQUE)
+//   3   a unified Request, not a transaction: a statement that fails, then the INSERT
+//   4   first a unified Request in a transaction whose second statement fails (rolled back: no
+//       change), then a unified Request with the INSERT and a SELECT
+//   5   an Execute, not a transaction: the INSERT, then a statement that fails
+func (d *c37Store) write(gap int) (uint64, error) {
 	id := d.nextID
 	d.nextID++
-	i, err := c37Exec(d.s, fmt.Sprintf("INSERT INTO t(id, v) VALUES(%d, '%s')", id, strings.Repeat("x", int(id%700))))
+	ins := fmt.Sprintf("INSERT INTO t(id, v) VALUES(%d, '%s')", id, strings.Repeat("x", int(id%700)))
+	dup := fmt.Sprintf("INSERT INTO t(id, v) VALUES(%d, 'dup')", id)
+	stmts := func(sqls ...string) *proto.Request {
+		r := &proto.Request{}
+		for _, q := range sqls {
+			r.Statements = append(r.Statements, &proto.Statement{Sql: q})
+		}
+		return r
+	}
+	// okAt: the INSERT is statement number okAt of the request and must have succeeded
+	request := func(r *proto.Request, okAt int) (uint64, error) {
+		res, _, idx, err := d.s.Request(context.Background(), &proto.ExecuteQueryRequest{Request: r})
+		if err != nil {
+			return 0, err
+		}
+		if okAt >= len(res) || res[okAt].GetError() != "" || res[okAt].GetE() == nil || res[okAt].GetE().RowsAffected != 1 {
+			return 0, fmt.Errorf("unified request: the INSERT did not succeed: %v", res)
+		}
+		return idx, nil
+	}
+	var i uint64
+	var err error
+	kind := gap % 6
+	if kind == 3 && id == 1 {
+		kind = 2
+	}
+	switch kind {
+	case 2:
+		i, err = request(stmts(ins, dup), 0)
+	case 3:
+		i, err = request(stmts(fmt.Sprintf("INSERT INTO t(id, v) VALUES(%d, 'dup')", id-1), ins), 1)
+	case 4:
+		r := stmts(ins, dup)
+		r.Transaction = true
+		if _, _, _, err = d.s.Request(context.Background(), &proto.ExecuteQueryRequest{Request: r}); err != nil {
+			return 0, err
+		}
+		i, err = request(stmts(ins, "SELECT count(*) FROM t"), 0)
+	case 5:
+		var res []*proto.ExecuteQueryResponse
+		res, i, err = d.s.Execute(context.Background(), &proto.ExecuteRequest{Request: stmts(ins, dup)})
+		if err == nil && (len(res) < 1 || res[0].GetError() != "") {
+			err = fmt.Errorf("execute: the INSERT did not succeed: %v", res)
+		}
+	default:
+		i, err = c37Exec(d.s, ins)
+	}
 	if err != nil {
 		return 0, err
 	}
@@ -1174,6 +1228,20 @@ func c37GenStore(rng *rand.Rand, k int) c37Input {
 		in.RemoteID = "="
 	}
 	in.Events = c37GenEvents(rng, "store", 8)
+	// in store mode the gap selects how the change is written (see c37Store.write)
+	regap := func(g []int) {
+		for k := range g {
+			g[k] = 1 + rng.Intn(12)
+		}
+	}
+	for i := range in.Events {
+		if in.Events[i].R == nil {
+			in.Events[i].W = 1 + rng.Intn(12)
+		} else {
+			regap(in.Events[i].R.Pre)
+			regap(in.Events[i].R.Mid)
+		}
+	}
 	gates := 0
 	for i := range in.Events {
 		r := in.Events[i].R
@@ -1271,7 +1339,7 @@ func TestVerif_C37(t *testing.T) {
 	// store mode: hand-picked first, then generated; all four provider configurations
 	for k := 0; k < 4; k++ {
 		w.Emit(c37Case(c37Input{Mode: "store", Vacuum: k&1 != 0, Compress: k&2 != 0, RemoteID: []string{"", "="}[k%2], Events: []c37Event{
-			{W: 1}, {R: &c37Round{Pre: []int{1}, Mid: []int{1, 1}, UpFail: "after"}}, {R: &c37Round{Mid: []int{1}}}, {R: &c37Round{}}, {R: &c37Round{}}, {W: 1}, {R: &c37Round{ProvFlaky: 1 + k%2}}, {R: &c37Round{}},
+			{W: 1}, {R: &c37Round{Pre: []int{2}, Mid: []int{3, 5}, UpFail: "after"}}, {R: &c37Round{Mid: []int{4}}}, {R: &c37Round{}}, {R: &c37Round{}}, {W: 2 + k}, {R: &c37Round{}}, {R: &c37Round{}}, {W: 3}, {R: &c37Round{ProvFlaky: 1 + k%2}}, {R: &c37Round{}},
 			{R: &c37Round{Pre: []int{1}, Gate: 1 + k/2}}, {R: &c37Round{}}, {W: 1}, {R: &c37Round{Pre: []int{1}, Mid: []int{1}, Gate: 1, GateKind: []string{"", "snapshot"}[k/2], Count: true}}, {R: &c37Round{Count: true}}}}, getStore()))
 	}
 	for i := 0; i < ns; i++ {
